@@ -363,6 +363,27 @@ impl AST {
                                 return;
                             }
                         };
+                        let mut placeholders = 0;
+                        for p in parts.iter() {
+                            if let TemplatePart::PlaceHolder(_) = p {
+                                placeholders += 1;
+                            }
+                        }
+                        if placeholders > elems.len() {
+                            ops.push(
+                                Op::Val(Primitive::Str(
+                                    format!(
+                                        "Format string has {} placeholders but only {} arguments",
+                                        placeholders,
+                                        elems.len()
+                                    )
+                                    .into(),
+                                )),
+                                def.pos.clone(),
+                            );
+                            ops.push(Op::Bang, def.pos);
+                            return;
+                        }
                         // We need to push process these in reverse order for the
                         // vm to process things correctly;
                         elems.reverse();
